@@ -281,6 +281,81 @@ fn has_reference_cycle_without_root(lib: &[(String, String)]) -> bool {
     st.keys().any(|k| !reach.contains(k))
 }
 
+/// symbol handlers: the model's `Symbols.documentSymbols` of every note and `Symbols.workspaceSymbols` of the empty query on
+/// the last state of a history vs `handle_document_symbols` / `handle_workspace_symbols` of a server that went through the
+/// same history (name, kind, addressed note, line, in order); the shape of every range (one whole line) is judged here
+fn symbols_correspondence(model: &mut Model, rep: &mut Report, h: &History) {
+    let t0 = std::time::Instant::now();
+    let Some(reply) = hist::model_reply_parts(model, h, &["symbols"]) else { return };
+    rep.count_n("symbols_model_ms", t0.elapsed().as_millis() as u64);
+    let states = dump::children(&reply);
+    let Some(last) = states.last() else { return };
+    let parts = dump::children(last);
+    let Some(ms) = parts.iter().find(|p| p.starts_with("(symbols")) else {
+        rep.count("symbols_corr_skipped_model_error_or_unmodelled");
+        return;
+    };
+    if ms.contains("skipped") {
+        rep.count("symbols_corr_skipped_model_error_or_unmodelled");
+        return;
+    }
+    let mut keys: Vec<String> = h.import.iter().chain(h.steps.iter()).map(|(k, _)| Key::from_file_name(k).to_string()).collect();
+    keys.sort();
+    keys.dedup();
+    let mut bad_range: Option<String> = None;
+    let real = dump::catch(|| {
+        crate::act::with_via(crate::act::Via::Import, || {
+            let state: HashMap<String, String> = h.import.iter().cloned().collect();
+            let mut server = c01::server_for(&state, &h.ext);
+            for (k, t) in &h.steps {
+                server.handle_did_change_text_document(lsp_types::DidChangeTextDocumentParams {
+                    text_document: lsp_types::VersionedTextDocumentIdentifier { uri: c01::uri_for(k), version: 2 },
+                    content_changes: vec![lsp_types::TextDocumentContentChangeEvent { range: None, range_length: None, text: t.clone() }],
+                });
+            }
+            let mut bad: Option<String> = None;
+            let mut sym = |s: &lsp_types::SymbolInformation| -> String {
+                let key = keys.iter().find(|k| c01::uri_for(k) == s.location.uri).cloned().unwrap_or_else(|| format!("?{}", s.location.uri));
+                let r = s.location.range;
+                if r.start.character != 0 || r.end.character != 0 || r.end.line != r.start.line + 1 {
+                    bad = Some(format!("symbol {:?}: range {:?} is not one whole line", s.name, r));
+                }
+                format!(" ({} {} {} {})", crate::sexp::hex(&s.name), if s.kind == SymbolKind::NAMESPACE { "ns" } else { "obj" }, crate::sexp::hex(&key), r.start.line)
+            };
+            let ws = match server.handle_workspace_symbols(WorkspaceSymbolParams { query: String::new(), work_done_progress_params: Default::default(), partial_result_params: Default::default() }) {
+                WorkspaceSymbolResponse::Flat(v) => v,
+                _ => vec![],
+            };
+            let mut out = format!("(symbols (workspace{})", ws.iter().map(|s| sym(s)).collect::<String>());
+            for k in &keys {
+                let ds = server.handle_document_symbols(DocumentSymbolParams { text_document: TextDocumentIdentifier { uri: c01::uri_for(k) }, work_done_progress_params: Default::default(), partial_result_params: Default::default() });
+                out.push_str(&format!(" ({}{})", crate::sexp::hex(k), ds.iter().map(|s| sym(s)).collect::<String>()));
+            }
+            out.push(')');
+            (out, bad)
+        })
+    });
+    let Ok((real, bad)) = real else {
+        rep.count("symbols_corr_skipped_impl_panic");
+        return;
+    };
+    bad_range = bad_range.or(bad);
+    rep.correspondence_cases += 1;
+    rep.count("symbols_corr_cases");
+    if real.matches(" obj ").count() + real.matches(" ns ").count() > 0 {
+        rep.count("symbols_corr_cases_with_symbols");
+    }
+    if let Some(w) = bad_range {
+        rep.fail(json!({"kind": "symbol_range", "history": hist::to_json(h), "what": w}));
+    }
+    if **ms != real {
+        let decode = |s: &str| -> Vec<String> { dump::children(s)[1..].iter().map(|e| crate::props::c04::decode(e)).collect() };
+        let (dm, di) = (decode(ms), decode(&real));
+        let first = dm.iter().zip(di.iter()).find(|(a, b)| a != b).map(|(a, b)| (a.clone(), b.clone())).unwrap_or_default();
+        rep.disagree(json!({"op": "Symbols.documentSymbols / workspaceSymbols (last state of graph.history)", "model": first.0.chars().take(600).collect::<String>(), "impl": first.1.chars().take(600).collect::<String>(), "history": hist::to_json(h)}));
+    }
+}
+
 pub fn run(ctx: &Ctx, model: &mut Model, rep: &mut Report) {
     rep.rule = "libraries of heading trees (well-nested and not, duplicate and code-only titles, headings inside lists and quotes) with block references forming DAGs and cycles, dangling targets, sub-directories, >100 headings in the big cases; edit histories; correspondence: model outline paths + search paths (text, rank, key, root, line) vs the real ones after every step, and the order/truncation of global_search for 4 queries with the real fuzzy scores as input; oracle: listed paths = chains found by an independent scan of the formatted notes (sound + complete for notes reachable from an unreferenced note), ≤100 results, documented order, names = heading texts; non-trivial = ≥2 headings; distinct by text".to_string();
     if let Some(path) = &ctx.replay {
@@ -360,6 +435,9 @@ pub fn run(ctx: &Ctx, model: &mut Model, rep: &mut Report) {
                     }
                 }
             }
+        }
+        if !big && lib.len() < 8 {
+            symbols_correspondence(model, rep, &h);
         }
         if i % 10 == 3 && lib.len() <= 6 {
             rep.count("document_symbol_padding_cases");
